@@ -255,7 +255,8 @@ claim('C11',
       '(by-value unique_lock, unlock iff owned: released on reset() and at scope exit); the selection is a private '
       'MutexWrapped value that no method leaks; only Index() writes the client map, under the final-construct guard; '
       'Select/Deselect take the selection lock exactly once (no self-deadlock, single mutex hence no lock-order cycle); '
-      'the generated out-event link delivers inside the scope of the lock. Deadlock freedom with re-entrant handlers, the '
+      'the generated out-event link delivers inside the scope of the lock, no client in-event link holds that lock while it '
+      'forwards through the dispatcher, the logger shared by the client threads has no changeable member. Deadlock freedom with re-entrant handlers, the '
       'claim/select window and "keeps receiving until it itself releases" over interleavings are schedule properties '
       'and are NOT decided by static analysis.',
       'Trusted: clang++ 14 JSON AST of the explicit instantiations, the C++ standard\'s semantics of std::mutex / '
